@@ -65,6 +65,9 @@ def stmt_tok(s):
         # ('call2', x, xe, f, args, cs)
         return "C %d %s %s %d %d %s" % (s[5], "-" if s[1] is None else var_tok(s[1]), "-" if s[2] is None else var_tok(s[2]),
                                         s[3], len(s[4]), " ".join(atom_tok(a) for a in s[4]))
+    if k == "retcall":
+        # ('retcall', f, args, cs)
+        return "Q %d %d %d %s" % (s[3], s[1], len(s[2]), " ".join(atom_tok(a) for a in s[2]))
     if k == "conv":
         return "v %s %d %d" % (var_tok(s[1]), s[2], s[3])
     if k == "calli":
@@ -110,6 +113,10 @@ def expand(p):
             pre = []
             args = lift(s[4], ctr, pre)
             return seq(pre + [("call2", s[1], s[2], s[3], args, s[5])])
+        if k == "retcall":
+            pre = []
+            args = lift(s[2], ctr, pre)
+            return seq(pre + [("retcall", s[1], args, s[3])])
         if k == "assign" and isinstance(s[2], tuple) and s[2][0] == "conv":
             return ("conv", s[1], s[2][1], s[2][2])
         if k == "return" and isinstance(s[1], tuple) and s[1][0] == "conv":
@@ -164,7 +171,7 @@ def flatten(s):
 def falls(s):
     """may control fall off the end of s (syntactic, as Go's terminating-statement rules see it)"""
     k = s[0]
-    if k in ("return", "return2"):
+    if k in ("return", "return2", "retcall"):
         return False
     if k == "seq":
         return falls(s[1]) and falls(s[2])
@@ -221,6 +228,9 @@ def locals_of(s, acc=None):
     elif k == "call2":
         v(s[1]); v(s[2])
         for a in s[4]:
+            v(a)
+    elif k == "retcall":
+        for a in s[2]:
             v(a)
     return acc
 
@@ -505,6 +515,10 @@ class Printer:
                 self.emit("%sreturn %s, %s" % (t, at, et))
             if sent:
                 self.sret.add((self.curfile, len(self.lines)))
+        elif kind == "retcall":
+            ct, sites = self.callexpr(s[1], s[2], k, s[3])
+            pre = "%sreturn " % t
+            self.emit(pre + ct, calls=[(c, oc + len(pre), oa + len(pre), ff) for c, oc, oa, ff in sites])
         elif kind == "call2":
             ct, sites = self.callexpr(s[3], s[4], k, s[5])
             pre = "%s%s, %s = " % (t, "_" if s[1] is None else self.var(s[1], k), "_" if s[2] is None else self.var(s[2], k))
@@ -696,6 +710,11 @@ class Printer:
                 fd = p["funcs"][s[3]]
                 if fd["pkg"] != k:
                     deps.add(fd["pkg"])
+            elif kind == "retcall":
+                for a in s[2]:
+                    v(a)
+                if p["funcs"][s[1]]["pkg"] != k:
+                    deps.add(p["funcs"][s[1]]["pkg"])
             elif kind == "conv":
                 v(s[1])
                 if p["impls"][s[3]]["pkg"] != k:
